@@ -1,8 +1,16 @@
 /-
 C11 — SyncList is a linearizable unbounded FIFO queue with a sane length.
-ONLY property theorems and non-vacuity examples live here.
+ONLY property theorems and non-vacuity examples live here; helper lemmas are in
+`Golib/Proof/C11*.lean`, the model in `Golib/Model/C11List.lean`.
+
+Every theorem quantifies over EVERY schedule `σ : List Nat` (list of thread ids; a thread
+id that does not exist or a finished thread is a no-op step), every number of threads,
+every program assignment `progs` and every initial content `vals`.  The machine is the
+repaired statement order (`Order.addThenStore`, F7); the pre-repair order is refuted in
+`Golib/Findings/C11.lean`.
 -/
 import Golib.Proof.C11Facts
+import Golib.Proof.C11Inv
 
 namespace Golib.C11
 
@@ -12,5 +20,42 @@ theorem c11_source_order :
     soloSrc .addThenStore (init [9] [[.pop]]) 7 = Gen.C11.popOps ∧
     soloSrc .addThenStore (init [9] [[.len]]) 1 = Gen.C11.lenOps :=
   ⟨facts_push_success_path, facts_pop_success_path, facts_len⟩
+
+/-- `c11_inv`: in every reachable state `head ≤ tail < |chain| ≤ tail + 2` (the tail lags
+behind the last linked node by at most one push in progress, the head never passes the
+tail), at most one pusher is between its link CAS and its publication, no thread ever
+dereferenced nil, and every thread's stale locals are lower bounds (`Inv.locals`). -/
+theorem c11_inv (vals : List Int) (progs : List (List Call)) (σ : List Nat) :
+    let s := (run .addThenStore (init vals progs) σ).1
+    Inv s ∧ s.head ≤ s.tail ∧ s.tail < s.chain.length ∧ s.chain.length ≤ s.tail + 2 ∧
+      s.crashed = false := by
+  have hI := inv_run (inv_init vals progs) σ
+  have h1 := hI.chain_len
+  have h2 := hI.one_publisher
+  exact ⟨hI, hI.head_le_tail, by omega, by omega, hI.not_crashed⟩
+
+/-- `c11_len`: in every reachable state `Len()` is never negative and never less than
+the number of values that can be popped now; when no call is in flight it equals the
+number of stored values. -/
+theorem c11_len (vals : List Int) (progs : List (List Call)) (σ : List Nat) :
+    let s := (run .addThenStore (init vals progs) σ).1
+    0 ≤ s.len ∧ ((stored s).length : Int) ≤ s.len ∧
+      ((∀ th ∈ s.threads, th.pc = .idle) → s.len = (stored s).length) := by
+  have hI := inv_run (inv_init vals progs) σ
+  have hl := stored_length hI
+  have h1 := hI.len_eq
+  have h2 := hI.head_le_tail
+  refine ⟨by omega, by omega, ?_⟩
+  intro hq
+  have e1 := cnt_eq_zero_of_all_idle (p := isPushStore) rfl hq
+  have e2 := cnt_eq_zero_of_all_idle (p := isPopPost) rfl hq
+  omega
+
+/-- Non-vacuity: a reachable state with a linked-but-unpublished node, a pending
+decrement and `len = 1 > 0 = poppable` (two threads mid-operation). -/
+example :
+    let s := (run .addThenStore (init [4] [[.push 7], [.pop]]) [1, 1, 1, 1, 0, 0, 0, 0]).1
+    s.chain.length = s.tail + 2 ∧ s.len = 2 ∧ (stored s).length = 0 ∧
+      cnt isPushStore s.threads = 1 ∧ cnt isPopPost s.threads = 1 := by decide
 
 end Golib.C11
